@@ -463,10 +463,13 @@ func (x *c15Ctx) checkSuccess(a *C15Action, kind string, tr *TwinResult, rc *typ
 				}
 			}
 		case kErc20:
-			if sup, ok := x.erc[addr]; ok {
-				if now := c15ErcSum(s1, addr); now.Cmp(sup) != 0 {
-					bad("supply", "Σ token balances %v after the call, %v at deployment", now, sup)
-				}
+			// the bundled contract credits a transfer to oneself without debiting it (its own
+			// semantics, not the node's), so the supply is only invariant for the other calls
+			self := att.Method == "transfer" && c15AddrOf(arg(0)) == sender || (att.Method == "transferFrom" || att.Method == "transfer_from") && bytes.Equal(arg(0), arg(1))
+			if before, now := c15ErcSum(s0, addr), c15ErcSum(s1, addr); now.Cmp(before) != 0 && !self {
+				bad("supply", "Σ token balances %v before the call, %v after it", before, now)
+			} else if self {
+				rep.Count("erc20_self_transfers", 1)
 			}
 			if att.Method == "transfer" && len(arg(0)) == 20 {
 				to, amt := c15AddrOf(arg(0)), new(big.Int).SetBytes(arg(1))
@@ -558,7 +561,7 @@ func (x *c15Ctx) EvalMulti(m *C15Multi) (safe bool) {
 	replay["receipts"] = views
 	x.classSeen(m, b, rcs)
 	k := x.K
-	x.K = 3 * k // a class that is unsafe must practically never slip into the real chain
+	x.K = 8 * k // a class that is unsafe must practically never slip into the real chain
 	safe = x.deterministic(b, rcs, sig, what, replay)
 	x.K = k
 	l0, l1 := LedgerOf(post0), LedgerOf(post)
@@ -668,8 +671,12 @@ func TestVerifC15(t *testing.T) {
 				gen.JumpClock(time.Duration(31*24+rng.Range(0, 48)) * time.Hour)
 				rep.Count("clock_jumps_31d", 1)
 			}
-			acts, multis := gen.NextBatch()
+			acts, multis, plain := gen.NextBatch()
 			var multiClass string
+			for _, tx := range plain {
+				w.Submit(tx)
+				rep.Count("funding_txs", 1)
+			}
 			for _, a := range acts {
 				out := x.Eval(a)
 				if out.Included && out.Success && out.GasUsed > 1 && rng.Intn(100) < 45 {
